@@ -332,6 +332,8 @@ def check_normalize(rep, repo):
         def spread(d):
             if d == std:
                 return True
+            if d[0] == "call" and d[1] == std[1] and d[2] == std[2] and dict(d[3]) == {**dict(std[3]), "ddof": ("const", 0)}:
+                return True  # the default ddof spelt out
             if d[0] == "call" and d[1] == ("mod", "numpy.where") and len(d[2]) == 3 and not d[3]:
                 c, x, y = d[2]
                 zero = [("const", 0), ("const", 0.0)]
